@@ -11,6 +11,8 @@ CONSTANTS
   MaxAt = 3
   ExpmDopModes <- Repaired
   Solve2Modes <- Solve2OK
+  Progbars <- PbBoth
+  Progbar0Modes <- PbOK
   PrintCases = FALSE
 INVARIANT TypeOK
 INVARIANT Schrodinger
